@@ -42,6 +42,10 @@ Span(a) == IF a.size = "X" THEN {<<a.byte, a.bit>>}
 \*   policy      \in {"halt", "safe_halt", "restart"}      fault policy
 \*   wd          \in {"halt", "safe_halt", "restart"}      watchdog action
 \*   safe[m]     = [addr |-> [area, size, byte, bit], val]
+\*   counters[c] = [name, owner (index of the program that bumps it), scope ("global"|"program"),
+\*                  qual ("none"|"retain"|"nonretain"|"persistent"), shape]        (C09)
+\*   sinit       = [single variable |-> its declared initial value]
+\*   vars0       = initial bytes of every bound variable
 \* s:   [now, g, lastAct, lastSingle, overruns, img, vars, cnt, src, drvLog, exec, faulted,
 \*       fault, inj, drvFail]
 \*   evReset: the one place where the property is silent (a task with both SINGLE and
@@ -54,12 +58,16 @@ TIdx == 1..Len(cfg.tasks)
 PIdx == 1..Len(cfg.programs)
 DIdx == 1..Len(cfg.drivers)
 
+CtrNames(c) == {c.counters[k].name : k \in DOMAIN c.counters}
+\* a SINGLE variable that is initially TRUE is not a rising edge: the edge memory starts at
+\* the declared initial value (register_task does the same)
 Fresh(c, vars0) ==
-  [now |-> 0, g |-> [x \in {c.singles[i] : i \in DOMAIN c.singles} |-> FALSE],
-   lastAct |-> [t \in 1..Len(c.tasks) |-> 0], lastSingle |-> [t \in 1..Len(c.tasks) |-> FALSE],
+  [now |-> 0, g |-> c.sinit,
+   lastAct |-> [t \in 1..Len(c.tasks) |-> 0],
+   lastSingle |-> [t \in 1..Len(c.tasks) |-> c.tasks[t].single # "" /\ c.sinit[c.tasks[t].single]],
    overruns |-> [t \in 1..Len(c.tasks) |-> 0],
    img |-> [I |-> [i \in 1..c.imgLen |-> 0], Q |-> [i \in 1..c.imgLen |-> 0], M |-> [i \in 1..c.imgLen |-> 0]],
-   vars |-> vars0, cnt |-> [j \in 1..Len(c.programs) |-> 0],
+   vars |-> vars0, ctr |-> [n \in CtrNames(c) |-> 0],
    src |-> [d \in 1..Len(c.drivers) |-> [i \in 1..c.drivers[d].len |-> 0]],
    drvLog |-> <<>>, exec |-> <<>>, trun |-> <<>>, faulted |-> FALSE, fault |-> "none",
    inj |-> [prog |-> "", at |-> 0], drvFail |-> [d |-> 0, op |-> ""]]
@@ -139,8 +147,13 @@ RunCopies(x, p, i) ==
   IF x.inj.prog = p.name /\ x.inj.at = i THEN [x EXCEPT !.fault = "pending:Program"]
   ELSE IF i > Len(p.copies) THEN x
   ELSE RunCopies([x EXCEPT !.vars[p.copies[i].to] = x.vars[p.copies[i].from]], p, i + 1)
+\* a program first bumps every counter it owns (C09: variables of every qualifier / scope /
+\* type shape), then performs its copies
+Bump(x, j) == [x EXCEPT !.ctr = [n \in DOMAIN x.ctr |->
+                 IF \E k \in DOMAIN cfg.counters : cfg.counters[k].name = n /\ cfg.counters[k].owner = j
+                 THEN x.ctr[n] + 1 ELSE x.ctr[n]]]
 RunProgram(x, j) ==
-  RunCopies([x EXCEPT !.exec = Append(x.exec, cfg.programs[j].name), !.cnt[j] = @ + 1], cfg.programs[j], 1)
+  RunCopies(Bump([x EXCEPT !.exec = Append(x.exec, cfg.programs[j].name)], j), cfg.programs[j], 1)
 Pending(x) == x.fault # "none" /\ ~x.faulted
 RECURSIVE RunProgs(_, _, _)
 \* run the programs (declaration order) selected by sel, stopping at the first fault
@@ -179,4 +192,20 @@ FailDriverOf(x, d, op)  == [x EXCEPT !.drvFail = [d |-> d, op |-> op]]
 WatchdogOf(x)           == RaiseFault([x EXCEPT !.drvLog = <<>>], "WatchdogTimeout", "wd:" \o cfg.wd)
 SimFaultOf(x)           == RaiseFault([x EXCEPT !.drvLog = <<>>], "SimulationFault", "policy:" \o cfg.policy)
 DirectWriteOf(x, a, v)  == [x EXCEPT !.img[a.area] = Encode(x.img[a.area], a, v)]
+\* a write through a VAR_ACCESS path reaches the program variable it names
+SetAccessOf(x, n, v)    == [x EXCEPT !.ctr[n] = v]
+
+\* --------------------------------- restart (C09) ---------------------------------
+Retained(n) == \E k \in DOMAIN cfg.counters : cfg.counters[k].name = n /\ cfg.counters[k].qual \in {"retain", "persistent"}
+\* warm: every RETAIN / PERSISTENT variable keeps its value, every other variable gets its
+\* declared initial value; cold: everything as in a newly built runtime.  Clock, task state,
+\* fault latch restart; the static configuration (bindings, access paths, task associations)
+\* is untouched, so nothing can come loose.  The raw images keep their bytes until the next
+\* cycle rewrites them (a fresh runtime starts from zero images; see PowerCycleOf).
+RestartOf(x, mode) ==
+  LET f == Fresh(cfg, cfg.vars0) IN
+  [f EXCEPT !.ctr = [n \in DOMAIN x.ctr |-> IF mode = "warm" /\ Retained(n) THEN x.ctr[n] ELSE 0],
+            !.img = x.img, !.src = x.src, !.drvFail = x.drvFail]
+\* save, new process, load: the same variables survive as in a warm restart
+PowerCycleOf(x) == [RestartOf(x, "warm") EXCEPT !.img = Fresh(cfg, cfg.vars0).img]
 =================================================================================
